@@ -262,7 +262,7 @@ def check(ctx):
             a = m_call(strip_sites(t), name='assertions_with_predicate', self_suffix='Envelope')
             return a is not None and a[0] == P1 and a[1] == P2
         empt = find_terms(b, tb_, lambda x: x[0] == 'call' and call_name(x) == 'is_empty' and is_V(x[2][0]))
-        lens = find_terms(b, tb_, lambda x: x[0] == 'call' and call_name(x) == 'len' and is_V(x[2][0]))
+        lens = find_terms(b, tb_, lambda x: (x[0] == 'call' and call_name(x) == 'len' and is_V(x[2][0])) or (x[0] == 'len' and is_V(x[1])))
         rows = {}
         for n in (0, 1, 2, 3):
             env = {}
@@ -295,6 +295,8 @@ def check(ctx):
                 inner = inner[3][0]
             for x in walk(inner):
                 if isinstance(x, tuple) and x and x[0] == 'call' and call_name(x) == 'index' and const_int(x[2][1]) == 0:
+                    return 'first'
+                if isinstance(x, tuple) and x and x[0] == 'index' and const_int(x[2]) == 0:
                     return 'first'
                 if isinstance(x, tuple) and x and x[0] == 'call' and call_name(x) in ('first', 'next'):
                     return 'first'
